@@ -209,6 +209,8 @@ fn markup_case(src: &mut Src, ctx: &mut Ctx) -> Result<(), String> {
     let m = hostile_gds(src);
     let lib = to_gds(&m);
     let (_, fname) = fmt_of(src.below(2));
+    // the converters' chatty mode prints statistics; it must not change what is converted
+    let (verbose_to, verbose_from) = (src.bool(), src.bool());
     let gds_in = scratch_path("c18.in.gds");
     let mk = scratch_path(&format!("c18.markup.{}", fname));
     let gds_out = scratch_path("c18.out.gds");
@@ -219,8 +221,8 @@ fn markup_case(src: &mut Src, ctx: &mut Ctx) -> Result<(), String> {
     ctx.label(&format!("GDSII file -> {} -> GDSII file", fname));
     ctx.nontrivial(hash_of(&(&m, fname, 1)));
     let r = (|| -> Result<(), String> {
-        to_markup(&ToMarkupOptions { gds: gds_in.clone(), fmt: fname.to_string(), out: mk.clone(), verbose: false }).map_err(|e| format!("to_markup failed: {}", e))?;
-        from_markup(&FromMarkupOptions { gds: gds_out.clone(), fmt: fname.to_string(), inp: mk.clone(), verbose: false }).map_err(|e| format!("from_markup failed: {}", e))?;
+        to_markup(&ToMarkupOptions { gds: gds_in.clone(), fmt: fname.to_string(), out: mk.clone(), verbose: verbose_to }).map_err(|e| format!("to_markup failed: {}", e))?;
+        from_markup(&FromMarkupOptions { gds: gds_out.clone(), fmt: fname.to_string(), inp: mk.clone(), verbose: verbose_from }).map_err(|e| format!("from_markup failed: {}", e))?;
         let a = std::fs::read(&gds_in).map_err(|e| e.to_string())?;
         let b = std::fs::read(&gds_out).map_err(|e| e.to_string())?;
         if a != b {
